@@ -294,6 +294,8 @@ def run_odd(rec, case):
             # left to answer; the application must still return normally
             if srv == 'T':
                 return
+            if srv == 'H' and method not in ('GET', 'POST', 'OPTIONS'):
+                return      # answered by aiohttp's router, not by the package
             sim.client_gone_early = True
         elif odd in ('upgrade-header-without-connection',
                      'upgrade-header-connection-close'):
@@ -329,6 +331,9 @@ def run_odd(rec, case):
             kw['body'] = body
         t = sim.request(method, q, headers, **kw)
         sim.quiesce()
+        if odd == 'client-gone-before-body' and srv == 'H':
+            sim.advance(0.5)    # (the client drops while a middleware awaits)
+            sim.mw_delay = 0
         rec.count('request_completion')
         if not t.done:
             sig = scen.hang_signature(sim, t)
@@ -805,7 +810,9 @@ def plan(tier, seed):
                 for isrv in (0, 1):
                     if tier == 'thorough' or rng.random() < 0.35:
                         cases.append({'odd': [iodd, im, ist, isrv]})
-    for k in range(40000 if tier == 'thorough' else 600):
+                if ODD[iodd] == 'client-gone-before-body':
+                    cases.append({'odd': [iodd, im, ist, 2]})
+    for k in range(150000 if tier == 'thorough' else 600):
         cases.append({'seed': seed, 'i': k})
     rng.shuffle(cases)
     n = 16
@@ -813,7 +820,7 @@ def plan(tier, seed):
               for i in range(n)]
     # pre-emptive tier (OS-thread backend, line-level pre-emption)
     pre = []
-    for k in range(2500 if tier == 'thorough' else 120):
+    for k in range(8000 if tier == 'thorough' else 120):
         racers = rng.sample(RACERS, rng.randint(2, 4))
         pre.append({'preempt': True, 'sched': seed * 100000 + k + 1,
                     'state': rng.choice(['poll', 'poll', 'nopoll', 'closed']),
